@@ -238,8 +238,12 @@ func (e *Exec) querySweep(r *Replica, m *Model, height int64, full bool, atH int
 				return
 			}
 		}
+		oaArg := oa
+		if rng.Chance(0.15) {
+			oaArg = strings.ToUpper(oa)
+		}
 		fetchTopics := func(pr *query.PageRequest) ([]string, *query.PageResponse, *QRes) {
-			q := n.Query(qTopics, &aoltypes.QueryTopicsRequest{OwnerAddress: oa, Pagination: pr}, height)
+			q := n.Query(qTopics, &aoltypes.QueryTopicsRequest{OwnerAddress: oaArg, Pagination: pr}, height)
 			var resp aoltypes.QueryTopicsResponse
 			if !q.OK() || resp.Unmarshal(q.Value) != nil {
 				return nil, nil, &q
@@ -297,7 +301,7 @@ func (e *Exec) querySweep(r *Replica, m *Model, height int64, full bool, atH int
 				st2.Limit = uint64(len(wantW))
 			}
 			fetchWriters := func(pr *query.PageRequest) ([]string, *query.PageResponse, *QRes) {
-				q := n.Query(qWriters, &aoltypes.QueryWritersRequest{OwnerAddress: oa, TopicName: name, Pagination: pr}, height)
+				q := n.Query(qWriters, &aoltypes.QueryWritersRequest{OwnerAddress: oaArg, TopicName: name, Pagination: pr}, height)
 				var resp aoltypes.QueryWritersResponse
 				if !q.OK() || resp.Unmarshal(q.Value) != nil {
 					return nil, nil, &q
@@ -610,7 +614,11 @@ func (e *Exec) pnftSweep(r *Replica, m *Model, height int64, full bool, atH int6
 			if !full && !rng.Chance(0.3) {
 				continue
 			}
-			q := n.Query(qPNFTsBy, &pnfttypes.QueryPNFTsByDenomOwnerRequest{DenomId: d, Owner: a.Addr.String()}, height)
+			ownerArg := a.Addr.String()
+			if rng.Chance(0.25) {
+				ownerArg = strings.ToUpper(ownerArg) // bech32's other legal spelling of the same account: the handler decodes the argument
+			}
+			q := n.Query(qPNFTsBy, &pnfttypes.QueryPNFTsByDenomOwnerRequest{DenomId: d, Owner: ownerArg}, height)
 			if e.qpanic(q, "PNFTsByDenomOwner") {
 				return
 			}
@@ -624,7 +632,7 @@ func (e *Exec) pnftSweep(r *Replica, m *Model, height int64, full bool, atH int6
 				got = append(got, tokenKey(t))
 			}
 			if !sameSet(got, byOwner[a.Addr.String()]) {
-				e.viol("C12", "listing.pnfts_by_owner.mismatch", "denom:"+d, "replica %d height %d: PNFTsByDenomOwner(%q,%s) returned %v, expected %v", r.ID, atH, d, a.Addr, got, byOwner[a.Addr.String()])
+				e.viol("C12", "listing.pnfts_by_owner.mismatch", "denom:"+d, "replica %d height %d: PNFTsByDenomOwner(%q,%s) returned %v, expected %v", r.ID, atH, d, ownerArg, got, byOwner[a.Addr.String()])
 				return
 			}
 			e.Stats.Inc("q.pnfts_by_owner")
